@@ -91,6 +91,12 @@ RULE_DOC = {
     "C05-ops": "Add / AddAssign append to the left operand in place",
     "C20-serde": "serde / arbitrary impls are complete in every feature set that has them",
     "C20-pair": "plain form = try form + the message panic (in debug and release alike)",
+    "C11-ownalloc": "nothing outside the heap-buffer module allocates directly", "C06-ownalloc": "nothing outside the heap-buffer module allocates directly",
+    "C11-views": "len / is_empty / capacity / as_str / as_bytes are the storage views", "C13-views": "len / is_empty / capacity / as_str / as_bytes are the storage views",
+    "C10-wrap": "public wrappers pass their storage-layer operation on every path, argument unchanged",
+    "C10-retain": "retain: one predicate site, write-back on the kept edge, cursors advance by the char's width", "C18-retain": "retain: one predicate site, write-back on the kept edge, cursors advance by the char's width",
+    "C12-fmt": "fmt::Write for LeanString is push_str / push", "C12-ops": "Add / AddAssign append to the left operand in place",
+    "T12-inplace": "the storage-layer mutators edit the receiver's own storage",
     "C05-errused": "no Result<_, ReserveError> is discarded",
     "C05-ownalloc": "nothing outside the heap-buffer module allocates directly",
     "C06-pair": "plain form = try form + the message panic",
@@ -150,6 +156,9 @@ def rules_C05(ctx):
     r_retain.rule_items_appended(ctx, rule="C05-items", traits=("core::iter::traits::collect::FromIterator", "core::iter::traits::collect::Extend"))
     # the operators append in place: the left operand is never moved out and put back around a call that can panic
     r_deleg.rule_operator_appends(ctx, rule="C05-ops")
+    # every integer / float / bool / char / String arm of try_to_lean_string uses the fallible storage
+    # constructor (a missing arm falls back to fmt::Write, whose write_str is the panicking push_str)
+    r_num.rule_dispatch(ctx)
 
 
 def rules_C02(ctx):
@@ -179,6 +188,8 @@ def rules_C13(ctx):
     # an in-place shrink hands the allocator the size of the whole block (header, slot, text)
     r_layout.rule_layout_agreement(ctx)
     r_layout.rule_len_slot(ctx)
+    # capacity() reports what the storage layer records
+    r_deleg.rule_views(ctx, rule="C13-views")
 
 
 def rules_C11(ctx):
@@ -204,6 +215,10 @@ def rules_C11(ctx):
     ctx.take_ts(["R2", "R3", "P1", "DUP"])
     # the public reserve / with_capacity / appends reach the storage layer's operation on every path
     r_api.rule_wrappers_delegate(ctx, rule="C11-wrap", only=("try_reserve", "try_with_capacity", "try_push_str", "try_push", "try_insert_str", "try_insert"))
+    # nothing outside the heap-buffer module allocates (a scratch String behind an append allocates
+    # although the text fits the capacity); capacity() is the storage layer's
+    r_reach.rule_C09_no_other_alloc(ctx, rule="C11-ownalloc")
+    r_deleg.rule_views(ctx, rule="C11-views")
 
 
 def rules_C18(ctx):
@@ -215,6 +230,7 @@ def rules_C18(ctx):
     r_retain.rule_items_appended(ctx, rule="C18-items", traits=("core::iter::traits::collect::FromIterator", "core::iter::traits::collect::Extend"))
     r_own.rule_no_hidden_state(ctx)
     r_retain.rule_no_rollback_guards(ctx)
+    r_moves.rule_retain_loop(ctx, rule="C18-retain")
 
 
 def rules_C01(ctx):
@@ -233,6 +249,7 @@ def rules_C01(ctx):
     # the bytes moved by the mutators and copied by the constructors are the right ones (affine forms)
     r_moves.rule_moves(ctx)
     r_moves.rule_retain_loop(ctx)
+    r_moves.rule_mutators_in_place(ctx)
     # the collecting impls take every element once, in order, and stop at the first None
     r_retain.rule_items_appended(ctx, rule="T11-items", traits=("core::iter::traits::collect::FromIterator", "core::iter::traits::collect::Extend"))
     r_own.rule_no_hidden_state(ctx)
@@ -257,6 +274,10 @@ def rules_C06(ctx):
     r_shrink.rule_shrink_guards(ctx, rule="C06-shrink")
     r_growth.rule_formula(ctx, rule="C06-growth")
     r_layout.rule_len_slot(ctx)
+    # nothing allocates through an infallible std container (a lying size hint would abort), and a
+    # constructor allocates what it was asked for or refuses - no clamping
+    r_reach.rule_C09_no_other_alloc(ctx, rule="C06-ownalloc")
+    r_layout.rule_capacity_roots(ctx)
 
 
 def rules_C07(ctx):
@@ -274,6 +295,9 @@ def rules_C12(ctx):
     r_layout.rule_capacity_roots(ctx)
     r_api.rule_wrappers_delegate(ctx, rule="C12-wrap", only=("try_reserve", "try_push_str", "try_push", "try_insert_str", "try_insert"))
     r_layout.rule_size_hint_use(ctx, rule="C12-hint")
+    # the formatting and operator front ends are the appends themselves (no reservation policy of their own)
+    r_deleg.rule_C15(ctx, rule="C12-fmt")
+    r_deleg.rule_operator_appends(ctx, rule="C12-ops")
 
 
 def rules_C14(ctx):
@@ -376,6 +400,10 @@ def rules_C10(ctx):
     r_text.rule_T5(ctx)
     # appending nothing writes nothing: the empty append returns before the storage is made writable
     r_reach.rule_empty_append(ctx)
+    # the public wrappers add no storage effect of their own (no "inline if it fits" pre-step that
+    # copies a borrowed text), and retain asks / copies like String's
+    r_api.rule_wrappers_delegate(ctx, rule="C10-wrap")
+    r_moves.rule_retain_loop(ctx, rule="C10-retain")
 
 
 PROPS = {
